@@ -1,13 +1,16 @@
 import PyamgV.Driver.Util
 import PyamgV.Model.C07Krylov
 import PyamgV.Model.C07Argmin
+import PyamgV.Model.C07Gmres
 /-! Driver ops for property C07 (line protocol). Op names are prefixed `c07_`.
 
 `c07_iter <solver> <r|c> <A> <M> <b> <x0> <k>` (matrices: rows separated by `;`)
   → `<m> <x_1;…;x_m>`  the iterates of the recurrence model (`m ≤ k`: it stops before a division by 0)
 `c07_krylov_argmin <kind> <r|c> <A> <M> <b> <x0> <k>`   kind ∈ cg | gmres | res | cgnr | cgne
   → `<cert 0|1> <xs> <y_1;…;y_k> <val_0,…,val_k>` | `singular` | `bad-kind`
-  the exact minimisers over the j-dimensional Krylov spaces, `cert` = the Galerkin conditions hold exactly -/
+  the exact minimisers over the j-dimensional Krylov spaces, `cert` = the Galerkin conditions hold exactly
+`c07_gmres_mgs <A> <M> <b> <x0> <k>` (binary64 bit patterns as decimal integers)
+  → `<x_1;…;x_k>` iterates of the GMRES(MGS) model run in `Float` -/
 namespace PyamgV.Drv.C07
 open PyamgV PyamgV.Drv PyamgV.C07
 
@@ -38,7 +41,17 @@ def handle : List String → Option String
     else
       match krylovArgmin (fun (q : Rat) => q) kind (parseMatR a) (parseMatR m) (1 : Rat) (parseRats b).toList (parseRats x0).toList (nat k) with
       | none => some "singular"
-      | some r => some s!"{if r.cert then 1 else 0} {showRats r.xs.toArray} {showVecs showRats r.ys} {showRats r.vals.toArray}"
+      | some r =>
+        -- real case: the certificate is re-checked by the checker proved sound in Proofs/C07Cert.lean
+        let b' := (parseRats b).toList
+        let ok := r.cert && certAllV b'.length r.G r.basis r.xs (parseRats x0).toList r.ds r.ys
+        some s!"{if ok then 1 else 0} {showRats r.xs.toArray} {showVecs showRats r.ys} {showRats r.vals.toArray}"
+  | ["c07_gmres_mgs", a, m, b, x0, k] =>
+    let mat := fun (t : String) => if t = "-" then [] else (t.splitOn ";").map (fun r => (parseFloats r).toList)
+    match gmresMgsFloat (mat a) (mat m) (parseFloats b).toList (parseFloats x0).toList (nat k) with
+    | none => some "bad-size"
+    | some xs => some (if xs.isEmpty then "-" else
+        String.intercalate ";" (xs.map fun v => sh (v.map fun f => toString f.toBits.toNat)))
   | _ => none
 
 end PyamgV.Drv.C07
